@@ -54,6 +54,7 @@ from boolean.boolean import TOKEN_LPAR
 from boolean.boolean import TOKEN_RPAR
 
 from license_expression._pyahocorasick import Trie as AdvancedTokenizer
+from license_expression._pyahocorasick import get_tokens
 from license_expression._pyahocorasick import Token
 
 curr_dir = dirname(abspath(__file__))
@@ -1734,9 +1735,12 @@ def validate_symbols(symbols, validate_keys=False):
         aliases = getattr(symbol, 'aliases', [])
         initial_alias_len = len(aliases)
 
-        # always normalize aliases for spaces and case
+        # always normalize aliases for spaces and case, reading them as the
+        # tokenizer does (words and parens): aliases that cannot be told apart
+        # in an expression must be seen as the same alias
         aliases = set([
-            ' '.join(alias.lower().strip().split()) for alias in aliases
+            ' '.join(t for t in get_tokens(alias) if t.strip())
+            for alias in aliases
         ])
 
         # KEEP UNIQUES, remove empties
